@@ -356,7 +356,9 @@ class SpecDB:
                     if len(a) != 3 or a[1] != 'on': raise SpecError('relation NAME on KEY expected')
                     ctx = Relation(a[0], a[2]); ctx.file = path; loop = None
                     self.relations[a[0]] = ctx
-                elif head == 'lemma':
+                elif head == 'justified_by':
+                    ctx.options['justified_by'] = rest.split()
+                elif head in ('lemma', 'axiom'):
                     m = re.match(r'^([A-Za-z_][A-Za-z_0-9]*)\s*\(([^)]*)\)$', rest)
                     if not m: raise SpecError('bad lemma header')
                     ps = []
@@ -366,6 +368,7 @@ class SpecDB:
                         t, n = p.split()
                         ps.append((t, n))
                     ctx = Lemma(m.group(1), ps); ctx.file = path; loop = None
+                    ctx.is_axiom = (head == 'axiom')
                     self.lemmas[ctx.name] = ctx
                 elif ctx is None:
                     raise SpecError('clause outside a block')
